@@ -111,6 +111,19 @@ def run(chk):
     for ncpu in ((2, 3) if not thorough else (2, 3, 7, 16)):
         configs.append((big, ncpu, 1, None, "lev", 1))
     configs.append((big[:131], 2, 2, 2, "ham", 1))
+    # boundary of the candidate ball: pairs that differ by exactly k substitutions of one letter by one other letter sit at
+    # squared composition distance 2k^2 = (sqrt(2) k)^2, for every k, mode and (bin-separating) compression
+    for k in (1, 2, 3, 4, 5, 6, 7):
+        x, y = rng.sample("ADGKW", 2)
+        fam = ["CASS" + x * k + "F", "CASS" + y * k + "F", "CASS" + x * (k - 1) + y + "F", x * k, y * k, "CASS" + x * k + y + "F"]
+        for comp in (1, 2):
+            configs.append((fam, rng.choice([1, 2]), comp, None, rng.choice(["lev", "ham"]), k))
+    # a walk through compressions on overlapping lists in one process (several compressions share a vector length but not the
+    # residue-to-bin map): nothing computed for one compression may be reused for another
+    walk_base = gen.repertoire(rng, 8, minlen=5, maxlen=7, allow_empty=False)
+    for comp in (5, 6, 7, 8, 9, 10, 13, 19, 20, 4, 3, 2, 1):
+        fresh = [gen.mutate(rng, rng.choice(walk_base), AA, 1) or "C" for _ in range(4)]
+        configs.append((rng.sample(walk_base, 6) + fresh + ["CGGGG", "CGGGA", "CAAAY", "CAAAW"][: rng.randint(2, 4)], 1, comp, None, "lev", 1))
     # the corner the property names explicitly
     configs.append((["CAAA", "CADA", "CAAK"], 4, 1, None, "lev", 1))
     configs.append((["CAAA"], 16, 2, None, "lev", 1))
@@ -124,6 +137,7 @@ def run(chk):
         else:
             ops.append({"op": "brute_self", "xs": xs, "k": k, "mode": mode})
     specs = core.run_driver_parallel(ops)
+    recent = []
     for (xs, n_cpu, comp, mr, mode, k), sp in zip(configs, specs):
         kw = dict(max_edits=k, n_cpu=n_cpu, compression=comp, max_returns=mr)
         if mode == "ham":
@@ -136,8 +150,11 @@ def run(chk):
             kw["max_custom_distance"] = 3
         st, val = core.call_real(lambda: nn.kdtree(xs, **kw))
         spec = core.canon_model_trips(sp[1])
-        meta = {"xs": xs, "n_cpu": n_cpu, "compression": comp, "max_returns": mr, "mode": mode, "k": k}
-        chk.case(sample=meta if len(chk.samples) < 5 else None,
+        # (the calls made just before, in the same process: a replay that holds alone is re-run after them)
+        meta = {"xs": xs, "n_cpu": n_cpu, "compression": comp, "max_returns": mr, "mode": mode, "k": k, "preceding_calls": list(recent[-3:])}
+        if mode in ("lev", "ham") and len(xs) <= 40:
+            recent.append({"xs": xs, "n_cpu": n_cpu, "compression": comp, "max_returns": mr, "mode": mode, "k": k})
+        chk.case(sample={k_: v for k_, v in meta.items() if k_ != "preceding_calls"} if len(chk.samples) < 5 else None,
                  nontrivial_key=json.dumps(meta, sort_keys=True) if spec else None)
         chk.count(f"n_cpu{'>len' if n_cpu > len(xs) else ('=1' if n_cpu == 1 else '>1')}")
         chk.count(f"max_returns={mr}")
@@ -185,8 +202,14 @@ def replay(path):
         if r["mode"] == "custom":
             print("(custom mode: replay through ./check C11)")
             return 0
+        for pc in r.get("preceding_calls", []):
+            pkw = dict(max_edits=pc["k"], n_cpu=pc["n_cpu"], compression=pc["compression"], max_returns=pc["max_returns"])
+            if pc["mode"] == "ham":
+                pkw["custom_distance"] = "hamming"
+            core.call_real(lambda: nn.kdtree(pc["xs"], **pkw))
         real = core.call_real(lambda: core.canon_trips(nn.kdtree(r["xs"], **kw)))
-        base = core.call_real(lambda: core.canon_trips(nn.kdtree(r["xs"], **{**kw, "n_cpu": 1, "compression": 1})))
+        base = core.canon_model_trips(core.run_driver([{"op": "brute_self", "xs": r["xs"], "k": r["k"], "mode": r["mode"]}])[0][1])
+        base = ("ok", base)
         print("real    :", str(real)[:500])
         print("baseline:", str(base)[:500])
         ok = real == base and real[0] == "ok"
